@@ -490,6 +490,10 @@ class SymEval:
         return ("ite", c, a, b)
 
     def loop(self, s, st: State) -> State:
+        if isinstance(s, ast.While):
+            d = _counter_while(s, self.func.node if self.func is not None else None, st.env)
+            if d is not None:
+                s = d
         lid = f"{self._lid_prefix}L{getattr(s, 'lineno', 0)}"
         assigned = _assigned_names(s.body) | (_assigned_names([ast.Assign(targets=[s.target], value=ast.Constant(0))]) if isinstance(s, ast.For) else set())
         fields = _assigned_fields(s.body, self.selfname)
@@ -923,6 +927,11 @@ class SymEval:
                     return ("idx", base, idx)
             if base[0] in ("tuple", "list") and isinstance(idx[1], int) and -len(base[1]) <= idx[1] < len(base[1]):
                 return base[1][idx[1]]
+        if idx[0] == "elem" and idx[1][0] == "call" and idx[1][2] == ("builtin", "range") and len(idx[1][3]) == 1 and not idx[1][4]:
+            n = idx[1][3][0]
+            if n[0] == "call" and n[2] == ("builtin", "len") and len(n[3]) == 1 and _same_value(n[3][0], base):
+                # L[i] for i in range(len(L)): the elements of L in turn
+                return ("elem", base, idx[2])
         seq = base[1] if is_const(base) else (base[1].v if base[0] == "gval" else None)
         if isinstance(seq, (tuple, list)) and len(seq) >= 2 and not is_const(idx):
             fmt = _format_table(seq)
@@ -980,6 +989,10 @@ class SymEval:
                     self.effects.pop()
                 recv = ("self",)
                 f = ("attr", recv, f[3][1][1])
+            elif isinstance(fn, ast.Name) and f[0] in ("field", "fieldv") and isinstance(f[1], str):
+                # m = self.meth; m(...) is self.meth(...)
+                recv = ("self",)
+                f = ("attr", recv, f[1])
         args = []
         for a in e.args:
             args.append(self.expr(a, st))
@@ -1033,6 +1046,11 @@ class SymEval:
             if not (f == ("builtin", "setattr") and len(args) == 3 and is_const(args[1])):
                 st.env["self.*"] = ("after", uid)
         return t
+
+
+def _same_value(a, b) -> bool:
+    """Two terms denoting the same object (call terms compared by their unique ids)."""
+    return a == b
 
 
 def _build_gated(rets, base_len):
@@ -1345,6 +1363,95 @@ def _walk_no_nested_funcs(fn):
         if isinstance(n, (ast.FunctionDef, ast.AsyncFunctionDef, ast.Lambda, ast.ClassDef)):
             continue
         todo.extend(ast.iter_child_nodes(n))
+
+
+def _counter_while(s: ast.While, fnode, env):
+    """`while i < N: BODY` where BODY advances the counter i by exactly one, once, as its first or last statement, N is not changed
+    by BODY and i is not read after the loop: the counted loop `for i in range(i0, N): BODY` (the form every loop rule is written for).
+    Returns the equivalent ast.For (same position), or None when the loop is not of that shape."""
+    cached = getattr(s, "_sa_counter", False)
+    if cached is not False and cached is None:
+        return None
+    t = s.test
+    if not (isinstance(t, ast.Compare) and len(t.ops) == 1 and isinstance(t.ops[0], ast.Lt) and isinstance(t.left, ast.Name)):
+        s._sa_counter = None
+        return None
+    var, bound = t.left.id, t.comparators[0]
+
+    def invariant(e):
+        if isinstance(e, ast.Constant):
+            return isinstance(e.value, int)
+        if isinstance(e, ast.Name):
+            return e.id != var and e.id not in _assigned_names(s.body)
+        if isinstance(e, ast.Call) and isinstance(e.func, ast.Name) and e.func.id == "len" and len(e.args) == 1 and not e.keywords:
+            return isinstance(e.args[0], ast.Name) and invariant(e.args[0])
+        if isinstance(e, ast.BinOp) and isinstance(e.op, (ast.Add, ast.Sub, ast.Mult)):
+            return invariant(e.left) and invariant(e.right)
+        return False
+
+    def is_inc(x):
+        if isinstance(x, ast.AugAssign) and isinstance(x.op, ast.Add) and isinstance(x.target, ast.Name) and x.target.id == var:
+            return isinstance(x.value, ast.Constant) and x.value.value == 1 and not isinstance(x.value.value, bool)
+        if isinstance(x, ast.Assign) and len(x.targets) == 1 and isinstance(x.targets[0], ast.Name) and x.targets[0].id == var and isinstance(x.value, ast.BinOp) and isinstance(x.value.op, ast.Add):
+            a, b = x.value.left, x.value.right
+            return (isinstance(a, ast.Name) and a.id == var and isinstance(b, ast.Constant) and b.value == 1) or (isinstance(b, ast.Name) and b.id == var and isinstance(a, ast.Constant) and a.value == 1)
+        return False
+
+    body = s.body
+    ok = invariant(bound) and len(body) >= 2 and not s.orelse
+    first = ok and is_inc(body[0])
+    last = ok and not first and is_inc(body[-1])
+    rest = body[1:] if first else body[:-1]
+    if not (first or last) or var in _assigned_names(rest) or (last and _has(rest, (ast.Continue,))):
+        s._sa_counter = None
+        return None
+    # the counter must not be read once the loop is over (its final value differs between the two forms)
+    if fnode is None:
+        s._sa_counter = None
+        return None
+    inside = {id(n) for n in ast.walk(s)}
+    after = False
+    for n in ast.walk(fnode):
+        if isinstance(n, ast.Name) and n.id == var and isinstance(n.ctx, ast.Load) and id(n) not in inside and (n.lineno, n.col_offset) > (s.lineno, s.col_offset):
+            after = True
+    enclosing_loop = any(isinstance(n, (ast.For, ast.While)) and n is not s and id(s) in {id(x) for x in ast.walk(n)} for n in ast.walk(fnode))
+    if after or (enclosing_loop and not _reinitialised_before(s, fnode, var)):
+        s._sa_counter = None
+        return None
+    s._sa_counter = True
+    start = env.get(var)
+    args = [bound] if start == ("const", 0) else [ast.Name(id=var, ctx=ast.Load()), bound]
+    it = ast.Call(func=ast.Name(id="range", ctx=ast.Load()), args=args, keywords=[])
+    if last:
+        tgt, nb = ast.Name(id=var, ctx=ast.Store()), list(rest)
+    else:
+        k = f"_{var}_k"
+        tgt = ast.Name(id=k, ctx=ast.Store())
+        nb = [ast.Assign(targets=[ast.Name(id=var, ctx=ast.Store())], value=ast.BinOp(left=ast.Name(id=k, ctx=ast.Load()), op=ast.Add(), right=ast.Constant(value=1)))] + list(rest)
+        ast.copy_location(nb[0], body[0])
+    f = ast.For(target=tgt, iter=it, body=nb, orelse=[], type_comment=None)
+    ast.copy_location(f, s)
+    for n in (tgt, it):
+        ast.copy_location(n, s.test)
+    ast.fix_missing_locations(f)
+    f._sa_from_while = s
+    return f
+
+
+def _reinitialised_before(s, fnode, var) -> bool:
+    """The statement just before the loop (in the same block) assigns the counter, so an enclosing loop re-enters it afresh."""
+    for n in ast.walk(fnode):
+        for fld in ("body", "orelse", "finalbody"):
+            blk = getattr(n, fld, None)
+            if isinstance(blk, list) and s in blk:
+                i = blk.index(s)
+                for prev in reversed(blk[:i]):
+                    if isinstance(prev, ast.Assign) and len(prev.targets) == 1 and isinstance(prev.targets[0], ast.Name) and prev.targets[0].id == var:
+                        return True
+                    if var in _assigned_names([prev]):
+                        return False
+                return False
+    return False
 
 
 def _desugar_match(s):
